@@ -60,6 +60,12 @@ M = {
  "c10-no-wake-ack": ("actions/ack-deliveries.go", "\t\t\tfor _, s := range subIDs {\n\t\t\t\tWakePublishListeners(false, s)\n\t\t\t}\n", ""),
  "c10-no-wake-dl": ("actions/delivery-utils.go", "\t\t\tWakePublishListeners(false, data.DeliverySubscriptionID)\n", ""),
  "c10-no-wake-seek": ("actions/seek-subscription-to-time.go", "\tif numAcked != 0 || numDeAcked != 0 {\n\t\tnotifyPublish(tx, sub.ID)\n\t}\n", ""),
+ "f6-revert": ("actions/message-streamer.go", "\t\t\t\tif delay <= 0 {", "\t\t\t\tif delay <= 0 && false {"),
+ "f14-revert": ("actions/message-streamer.go", "\t\t\t} else if results.NumDeadLettered == 0 {", "\t\t\t} else if results.NumDeadLettered == 0 && false {"),
+ "c11-no-subtract": ("actions/message-streamer.go", "\t\t\t\t\tcurFc.MaxMessages--\n", ""),
+ "c11-no-strict": ("actions/message-streamer.go", "MaxBytesStrict: anyPending,", "MaxBytesStrict: anyPending && false,"),
+ "c11-nack-keeps-pending": ("actions/message-streamer.go", "\t\t\t\tfor _, id := range msg.Nack {\n\t\t\t\t\tdelete(pending, id)\n\t\t\t\t}\n", ""),
+ "c11-no-refresh-wake": ("actions/message-streamer.go", "\t\t\tif removedPending {", "\t\t\tif removedPending && false {"),
 }
 def main():
     name, checks = sys.argv[1], sys.argv[2].split(",")
